@@ -5,6 +5,7 @@ package gohlslib
 // C09 — a Client reading a Muxer reproduces the written stream.
 
 import (
+	"github.com/bluenviron/mediacommon/v2/pkg/formats/mpegts"
 	"bytes"
 	"net/http"
 	"time"
@@ -52,6 +53,15 @@ func VerifH_C09_cosim() {
 	verifReqLog, verifPlaylists = nil, nil
 	verifPtsOffMax = 0
 	r := verifSetup()
+	if r.g.variant == MuxerVariantMPEGTS {
+		// symbolic build: the reader stub of cli_ts.go resolves the tags written by the writer stub of mux_stubs.go
+		verifTSCbVideo = map[*mpegts.Track]mpegts.ReaderOnDataH264Func{}
+		verifTSCbAudio = map[*mpegts.Track]mpegts.ReaderOnDataMPEG4AudioFunc{}
+		verifTSClientTracks = nil
+		for _, mt := range r.m.mtracks {
+			verifTSClientTracks = append(verifTSClientTracks, mt.mpegtsTrack)
+		}
+	}
 	K := verifParam("K", 5)
 	for r.k = 0; r.k < K; r.k++ {
 		ti := 0
@@ -142,11 +152,19 @@ func VerifH_C09_cosim() {
 	}
 	for i, t := range reported {
 		mt := r.tracks[i]
-		verifAssert("C09", "track-clock-rate", t.ClockRate == mt.ClockRate)
+		if g.variant == MuxerVariantMPEGTS {
+			verifAssert("C09", "track-clock-rate", t.ClockRate == 90000) // 90 kHz throughout for MPEG-TS
+		} else {
+			verifAssert("C09", "track-clock-rate", t.ClockRate == mt.ClockRate)
+		}
 		switch mc := mt.Codec.(type) {
 		case *codecs.H264:
 			cc, ok := t.Codec.(*codecs.H264)
-			verifAssert("C09", "track-codec-type-and-parameters", ok && bytes.Equal(cc.SPS, mc.SPS) && (bytes.Equal(cc.PPS, mc.PPS) || g.pending || g.open.forced))
+			if g.variant == MuxerVariantMPEGTS {
+				verifAssert("C09", "track-codec-type", ok) // MPEG-TS carries the parameter sets in-band only
+			} else {
+				verifAssert("C09", "track-codec-type-and-parameters", ok && bytes.Equal(cc.SPS, mc.SPS) && (bytes.Equal(cc.PPS, mc.PPS) || g.pending || g.open.forced))
+			}
 		case *codecs.H265:
 			cc, ok := t.Codec.(*codecs.H265)
 			verifAssert("C09", "track-codec-type-and-parameters", ok && bytes.Equal(cc.VPS, mc.VPS) && (g.pending || g.open.forced || (bytes.Equal(cc.SPS, mc.SPS) && bytes.Equal(cc.PPS, mc.PPS))))
@@ -159,7 +177,7 @@ func VerifH_C09_cosim() {
 		case *codecs.MPEG4Audio:
 			cc, ok := t.Codec.(*codecs.MPEG4Audio)
 			verifAssert("C09", "track-codec-type-and-parameters", ok && cc.Config.SampleRate == mc.Config.SampleRate && cc.Config.ChannelCount == mc.Config.ChannelCount)
-			if len(r.tracks) > 1 {
+			if len(r.tracks) > 1 && g.variant != MuxerVariantMPEGTS {
 				wantName := mt.Name
 				if wantName == "" {
 					wantName = "audio" + itoaSmall(i+1)
@@ -189,6 +207,10 @@ func VerifH_C09_cosim() {
 				continue
 			}
 			wdts := e.u.dts - o
+			if g.variant == MuxerVariantMPEGTS {
+				// every track is carried, and delivered, at 90 kHz
+				wdts = multiplyAndDivide(e.u.dts, 90000, int64(t.rate)) - multiplyAndDivide(origin, 90000, int64(lead.rate))
+			}
 			if wdts+e.u.ptsOff < -1 {
 				continue // precedes the origin
 			}
